@@ -395,7 +395,7 @@ func (u *Unit) wf(s *State, t types.Type, v *Term) *Term {
 			return And(Le(lo, v), Le(v, hi))
 		}
 		if ut.Info()&types.IsString != 0 {
-			return And(Ge(w.StrLen(v), IntLit(0)), Le(w.StrLen(v), Leaf("2305843009213693952", "Int")))
+			return And(Ge(w.StrLen(v), IntLit(0)), Le(w.StrLen(v), Leaf("1099511627776", "Int")))
 		}
 		if ut.Info()&types.IsFloat != 0 && w.FM == FloatBits {
 			return And(App("<=", "Bool", IntLit(0), v), App("<", "Bool", v, pow2(64)))
